@@ -1125,9 +1125,51 @@ fn eval_c16_prelude(job: &Job) -> JobResult {
     res
 }
 
+/// Hand-written models (statics.rs): an initialiser of a lazy static / thread-local fails in the
+/// iterations in which a racing store came first; the panic is caught inside the model. Every
+/// iteration must end normally, with the signature that its own race result implies.
+fn eval_c16_custom(job: &Job) -> JobResult {
+    let mut res = JobResult::default();
+    let which = job.extra["which"].as_u64().unwrap_or(0) as usize;
+    let sigs: std::sync::Arc<std::sync::Mutex<Vec<String>>> = Default::default();
+    let s2 = sigs.clone();
+    let mut b = loom::model::Builder::new();
+    b.log = false;
+    let r = std::panic::catch_unwind(std::panic::AssertUnwindSafe(move || {
+        b.check(move || {
+            let sig = crate::statics::failing_init_model(which);
+            s2.lock().unwrap_or_else(|e| e.into_inner()).push(sig);
+        })
+    }));
+    let sigs = sigs.lock().unwrap_or_else(|e| e.into_inner()).clone();
+    res.loom_iterations = sigs.len() as u64;
+    res.states = sigs.len() as u64;
+    res.transitions = sigs.len() as u64;
+    res.nontrivial = true;
+    res.sample = json!({"mode": "custom", "model": which, "iterations": sigs.len(), "signatures": sigs.iter().collect::<std::collections::BTreeSet<_>>()});
+    if let Err(p) = r {
+        let msg = p.downcast_ref::<&str>().map(|s| s.to_string()).or_else(|| p.downcast_ref::<String>().cloned()).unwrap_or_default();
+        res.verdict = subject::classify(&msg).short();
+        res.violations.push(viol("iteration_depends_on_history", format!("custom model {}", which), "every iteration ends normally: a failed initialiser of an earlier iteration leaves nothing behind".into(), format!("after {} iterations: {}", sigs.len(), msg.lines().next().unwrap_or("")), json!({"signatures": sigs})));
+        return res;
+    }
+    res.verdict = "Ok".into();
+    let want: std::collections::BTreeSet<&str> = ["fails=false ok7", "fails=true init-panicked"].into_iter().collect();
+    let got: std::collections::BTreeSet<&str> = sigs.iter().map(|s| s.as_str()).collect();
+    if got != want {
+        res.violations.push(viol("iteration_depends_on_history", format!("custom model {}", which), format!("{:?}", want), format!("{:?}", got), json!({})));
+    } else {
+        res.traces_validated += sigs.len() as u64;
+    }
+    res
+}
+
 fn eval_c16(job: &Job) -> JobResult {
     if job.extra.get("mode").and_then(|v| v.as_str()) == Some("prelude") {
         return eval_c16_prelude(job);
+    }
+    if job.extra.get("mode").and_then(|v| v.as_str()) == Some("custom") {
+        return eval_c16_custom(job);
     }
     let p = &job.program;
     let mut res = JobResult::default();
